@@ -293,6 +293,11 @@ fn boundaries(text: &str) -> Vec<(u32, u32)> {
         if e - s >= 3 {
             out.push(gen::pos_of(text, gen::floor_boundary(text, s + (e - s) / 2)));
         }
+        if !text.is_char_boundary(s + 1) {
+            // inside a multi-byte character (for a supplementary-plane character: between its two UTF-16 units)
+            let (l, c) = gen::pos_of(text, s);
+            out.push((l, c + 1));
+        }
     }
     out.sort();
     out.dedup();
@@ -966,19 +971,39 @@ fn run_all(cases: Arc<Vec<Case>>, out_path: &str, workdir: &str, threads: usize,
             finished.fetch_add(1, Ordering::SeqCst);
         }).unwrap());
     }
-    // watchdog
+    // watchdog: (1) a worker without heartbeat for too long (parse phases: a third of the limit, they take milliseconds);
+    // (2) runaway memory (an endless loop that allocates): blamed on the busy worker with the oldest heartbeat
+    let mem_limit_kb: u64 = std::env::var("C03_MEM_GB").ok().and_then(|s| s.parse::<u64>().ok()).unwrap_or(10) * 1024 * 1024;
+    let rss_kb = || -> u64 {
+        std::fs::read_to_string("/proc/self/statm").ok().and_then(|s| s.split_whitespace().nth(1).and_then(|x| x.parse::<u64>().ok())).map(|pages| pages * 4).unwrap_or(0)
+    };
     let mut hang = false;
     while finished.load(Ordering::SeqCst) < threads {
         std::thread::sleep(std::time::Duration::from_millis(200));
         let now = t0.elapsed().as_millis() as u64;
+        let mut report = |hb: &Heartbeat, why: String| {
+            let desc = hb.desc.lock().unwrap().clone().unwrap_or(Value::Null);
+            out.write(&json!({"kind": "violation", "class": "hang", "where": desc.get("phase").cloned().unwrap_or(Value::Null),
+                "detail": format!("{}; last query started: {}", why, hb.current.lock().unwrap()), "step": desc.get("step").cloned().unwrap_or(Value::Null),
+                "state": Value::Null, "loc_file": Value::Null, "cursor": Value::Null, "case": desc.get("case").cloned().unwrap_or(Value::Null)}));
+        };
         for hb in &hbs {
-            if hb.idle.load(Ordering::Relaxed) == 0 && now.saturating_sub(hb.last_ms.load(Ordering::Relaxed)) > watchdog_s * 1000 {
-                let desc = hb.desc.lock().unwrap().clone().unwrap_or(Value::Null);
-                out.write(&json!({"kind": "violation", "class": "hang", "where": desc.get("phase").cloned().unwrap_or(Value::Null),
-                    "detail": format!("no progress for more than {} s (watchdog); last query started: {}", watchdog_s, hb.current.lock().unwrap()), "step": desc.get("step").cloned().unwrap_or(Value::Null),
-                    "cursor": Value::Null, "case": desc.get("case").cloned().unwrap_or(Value::Null)}));
+            if hb.idle.load(Ordering::Relaxed) != 0 {
+                continue;
+            }
+            let parse_phase = hb.desc.lock().unwrap().as_ref().and_then(|d| d.get("phase").and_then(|p| p.as_str().map(|s| s.contains("parse")))).unwrap_or(false);
+            let limit = if parse_phase { (watchdog_s / 3).max(10) } else { watchdog_s };
+            if now.saturating_sub(hb.last_ms.load(Ordering::Relaxed)) > limit * 1000 {
+                report(hb, format!("no progress for more than {} s (watchdog)", limit));
                 hang = true;
             }
+        }
+        if !hang && rss_kb() > mem_limit_kb {
+            let oldest = hbs.iter().filter(|hb| hb.idle.load(Ordering::Relaxed) == 0).min_by_key(|hb| hb.last_ms.load(Ordering::Relaxed));
+            if let Some(hb) = oldest {
+                report(hb, format!("resident memory of the harness exceeded {} GB: runaway allocation (endless loop)", mem_limit_kb / 1024 / 1024));
+            }
+            hang = true;
         }
         if hang {
             break;
